@@ -31,7 +31,7 @@ SPEC = {
                    "instead runs strconv.ParseUint(s,0,64) resp. fmt.Sscanf(line,\"sentinel %x\") directly on generated "
                    "numerals against the model's parse_uint0 / scan_sentinel). distinct = distinct "
                    "case lines; every case compares status, pc list and name with the model and evaluates the oracles "
-                   "(total: no panic; Child treats only < 2 lines as no crash; shape, 16-frame cap, length <= 4096 and truncation marker, DecodeStack(name) = one line Function:line,+0xoff "
+                   "(total: no panic and - 20 s watchdog per call and per Child process - termination; Child treats only < 2 lines as no crash; shape, 16-frame cap, length <= 4096 and truncation marker, DecodeStack(name) = one line Function:line,+0xoff "
                    "per frame runtime.CallersFrames reports for the pcs [name-lists-frames], equal projection -> equal name, equal pcs -> equal name, relocation "
                    "invariance, genuine frames) on the implementation's output"),
     ],
